@@ -4,6 +4,7 @@ package c05
 import (
 	"bytes"
 	"fmt"
+	"math/big"
 	"strings"
 	"testing"
 
@@ -21,9 +22,10 @@ import (
 func TestMain(m *testing.M) { rt.Main(m) }
 
 type item struct {
-	kind string // t1-known, t1-unknown, t1-malformed, t2-known, t2-unknown, t2-malformed
-	req  tokens.TokenRequestWithDetails
-	sess *gen.Session // state for known-key requests (nil otherwise)
+	crafted bool   // built by the harness without a client state; may or may not evaluate
+	kind    string // t1-known, t1-unknown, t1-malformed, t2-known, t2-unknown, t2-malformed
+	req     tokens.TokenRequestWithDetails
+	sess    *gen.Session // state for known-key requests (nil otherwise)
 }
 
 func last(b []byte) byte { return b[len(b)-1] }
@@ -176,8 +178,26 @@ func TestBatches(t *testing.T) {
 					}
 					r := sess.State2.Request()
 					if kind == "t2-malformed" {
-						r = &type2.BasicPublicTokenRequest{TokenKeyID: r.TokenKeyID, BlindedReq: bytes.Repeat([]byte{0xff}, 256)} // >= N
+						// messages at and around the modulus and the trivial ones; whether the issuer signs them is
+						// whatever the per-type issuer says (model below) - 0, 1 and N-1 are signed, N is not
+						bad := bytes.Repeat([]byte{0xff}, 256) // >= N
+						nMod := gen.RSAPool()[idx].N
+						be := func(v *big.Int) []byte { out := make([]byte, 256); v.FillBytes(out); return out }
+						switch gen.Uniform(t, 7, "badkind2") {
+						case 1:
+							bad = be(nMod)
+						case 2:
+							bad = be(new(big.Int).Add(nMod, big.NewInt(1)))
+						case 3:
+							bad = be(new(big.Int).Sub(nMod, big.NewInt(1)))
+						case 4:
+							bad = be(big.NewInt(0))
+						case 5:
+							bad = be(big.NewInt(1))
+						}
+						r = &type2.BasicPublicTokenRequest{TokenKeyID: r.TokenKeyID, BlindedReq: bad}
 						sess = nil
+						it.crafted = true
 					}
 					it.req, it.sess = r, sess
 				case "t2-unknown":
@@ -208,7 +228,7 @@ func TestBatches(t *testing.T) {
 						expected[i] = true
 					}
 				}
-				if expected[i] && it.sess == nil {
+				if expected[i] && it.sess == nil && !it.crafted {
 					t.Fatalf("harness: a malformed request evaluated successfully (%s)", it.kind)
 				}
 				s.Class(it.kind)
@@ -285,6 +305,14 @@ func TestBatches(t *testing.T) {
 					return
 				}
 				if !present {
+					continue
+				}
+				if it.sess == nil {
+					// crafted message that the per-type issuer signs: no client state to finalize with
+					if len(resps[i]) != 256 {
+						rt.Fail(t, "C05/finalize", "entry %d (%s): %d-byte response to a type-2 request", i, it.kind, len(resps[i]))
+						return
+					}
 					continue
 				}
 				toks, err := it.sess.Finalize(resps[i])
